@@ -2,7 +2,7 @@
    Only statements: every proof is [exact] of a lemma of Proofs/.  [S] ranges over every scalar
    structure (a commutative ring where sums are involved); shapes and indices over all of Z. *)
 From Coq Require Import Reals.
-From LV Require Import Lib.Cis Model.Field Model.Geometry Model.Shapes Proofs.GeometryP Proofs.ShapesP Proofs.ShapesR Proofs.HexLatticeP Proofs.HexSegR Lib.Instances.
+From LV Require Import Lib.Cis Model.Field Model.Geometry Model.Shapes Proofs.GeometryP Proofs.ShapesP Proofs.ShapesR Proofs.HexLatticeP Proofs.HexSegR Proofs.CentroidP Lib.Instances.
 #[local] Open Scope Z_scope.
 
 (* ---------------------------------------------------------------- (a) pad *)
@@ -359,6 +359,91 @@ Theorem C20_hex_segments_gap0_shared_edge_refuted :
 Proof. exact hex_gap0_shared_edge_R. Qed.
 Print Assumptions C20_hex_segments_gap0_shared_edge_refuted.
 
+(* ---------------------------------------------------------------- deepen: entry points, mesh, spider, centroid *)
+(* rebin refuses complex data (ValueError) before anything else; real data go to the reshape-and-sum *)
+Theorem C20_rebin_refuses_complex :
+  forall (S : Scalar) (a : arr S) (c : cube S) (f : Z),
+  rebin2_entry true a f = Err ValueError /\ rebin3_entry true c f = Err ValueError /\
+  rebin2_entry false a f = rebin2 a f /\ rebin3_entry false c f = rebin3 c f.
+Proof. exact rebin_entry_spec. Qed.
+Print Assumptions C20_rebin_refuses_complex.
+
+(* sanitize_shape: a scalar s is the square shape (s, s), a sequence (also the empty one) is kept; idempotent *)
+Theorem C20_sanitize_shape :
+  (forall s, sanitize_shape (ShScalar s) = [s; s]) /\ (forall l, sanitize_shape (ShSeq l) = l) /\
+  (forall a, sanitize_shape (ShSeq (sanitize_shape a)) = sanitize_shape a).
+Proof. exact sanitize_shape_spec. Qed.
+Print Assumptions C20_sanitize_shape.
+
+(* slice_offset on the Ellipsis forms: `...` and `(..., :)` are the whole array (offset (0, 0) whatever the shape),
+   any other tuple with an Ellipsis is refused with ValueError (the code since fix 394c6f4) *)
+Theorem C20_slice_offset_ellipsis_forms :
+  forall n m : Z,
+  slice_offset_ell EllBare = Ok (slice_offset SlEllipsis n m) /\ slice_offset_ell EllAll = Ok (0, 0) /\
+  slice_offset_ell EllOther = Err ValueError.
+Proof. exact slice_offset_ell_spec. Qed.
+Print Assumptions C20_slice_offset_ellipsis_forms.
+
+(* helper.mesh: both rotated coordinates vanish on the origin sample moved by the integer shift, for every
+   rotation; the grid moves with the shift and changes sign under the half-turn about the origin sample *)
+Theorem C20_mesh_origin_translation_half_turn :
+  forall (S : Scalar) (leb : S -> S -> bool) (sq : S -> S), is_ring S -> ord_laws S leb -> zinj_laws S ->
+  forall (n m n' m' : Z) (sh0 sh1 co si : S) (i j i' j' d0 d1 : Z),
+  mesh_val n m (kofz d0) (kofz d1) co si (n / 2 + d0) (m / 2 + d1) = (@k0 S, @k0 S) /\
+  (i' - n' / 2 = i - n / 2 + d0 -> j' - m' / 2 = j - m / 2 + d1 ->
+   mesh_val n' m' (sh0 + kofz d0)%K (sh1 + kofz d1)%K co si i' j' = mesh_val n m sh0 sh1 co si i j) /\
+  mesh_val n m k0 k0 co si (2 * (n / 2) - i) (2 * (m / 2) - j) =
+    ((- fst (mesh_val n m k0 k0 co si i j))%K, (- snd (mesh_val n m k0 k0 co si i j))%K).
+Proof.
+  exact (fun S leb sq R O Zi n m n' m' sh0 sh1 co si i j i' j' d0 d1 =>
+    conj (mesh_origin S leb sq R O Zi n m d0 d1 co si)
+   (conj (mesh_translate S leb sq R O Zi n m n' m' sh0 sh1 co si i j i' j' d0 d1)
+         (mesh_half_turn S leb sq R O Zi n m co si i j))).
+Qed.
+Print Assumptions C20_mesh_origin_translation_half_turn.
+
+(* spider = 1 - rectangle(len, width) pushed out by len/2 along the angle: values in [0,1], binary without
+   antialiasing, spider + its arm = 1 everywhere, exact translation under integer shifts *)
+Theorem C20_spider_complement_range_translation :
+  forall (S : Scalar) (leb : S -> S -> bool) (sq : S -> S), is_ring S -> ord_laws S leb -> zinj_laws S ->
+  forall (n m : Z) (width s2 sh0 sh1 co si : S) (aa : bool) (i j d0 d1 : Z),
+  let v := spider_val leb n m width s2 sh0 sh1 co si aa i j in
+  (leb k0 v = true /\ leb v k1 = true) /\ (aa = false -> v = k0 \/ v = k1) /\
+  (v + rect_val leb n m (spider_len n m s2) width (sh0 + - (spider_len n m s2 * khalf) * si)%K
+                (sh1 + spider_len n m s2 * khalf * co)%K co si aa i j = k1)%K /\
+  spider_val leb n m width s2 (sh0 + kofz d0)%K (sh1 + kofz d1)%K co si aa (i + d0) (j + d1) = v.
+Proof.
+  exact (fun S leb sq R O Zi n m width s2 sh0 sh1 co si aa i j d0 d1 =>
+    conj (proj1 (spider_range S leb sq R O Zi n m width s2 sh0 sh1 co si aa i j))
+   (conj (proj2 (spider_range S leb sq R O Zi n m width s2 sh0 sh1 co si aa i j))
+   (conj (spider_is_complement S leb sq R O Zi n m width s2 sh0 sh1 co si aa i j)
+         (spider_translate S leb sq R O Zi n m width s2 sh0 sh1 co si aa i j d0 d1)))).
+Qed.
+Print Assumptions C20_spider_complement_range_translation.
+
+(* centroid is scale free (no absolute threshold can enter) ... *)
+Theorem C20_centroid_scale_free :
+  forall (a : arr QS) (k : Qc), k <> 0%Qc ->
+  centroid (@mkArr QS (nr a) (nc a) (fun i j => (k * get a i j)%Qc)) = centroid a.
+Proof. exact centroid_scale. Qed.
+Print Assumptions C20_centroid_scale_free.
+
+(* ... and consistent with pad: zero-padding moves it by the difference of the origin indices floor(N/2) - floor(n/2) *)
+Theorem C20_centroid_moves_with_pad :
+  forall (a : arr QS) (N M : Z) (b : arr QS),
+  0 <= nr a <= N -> 0 <= nc a <= M -> asum a <> 0%Qc -> pad2 a N M = Ok b ->
+  centroid b = ((fst (centroid a) + zq (ctr N - ctr (nr a)))%Qc, (snd (centroid a) + zq (ctr M - ctr (nc a)))%Qc).
+Proof. exact centroid_pad_shift. Qed.
+Print Assumptions C20_centroid_moves_with_pad.
+
+(* the array hex_segments allocates is at least as wide as the (2k+1) segments, the 2k gaps and the padding *)
+Theorem C20_hex_segments_array_covers_aperture :
+  forall (rings : Z) (radius gap s3 : Qc) (pad : Z),
+  (zq (rings * 2 + 1) * (radius * s3 * Q2Qc (1 # 2)) * zq 2 + zq (rings * 2) * gap + zq (pad * 2)
+   <= zq (hex_size rings radius gap s3 pad))%Qc.
+Proof. exact hex_size_covers. Qed.
+Print Assumptions C20_hex_segments_array_covers_aperture.
+
 (* ---------------------------------------------------------------- non-vacuity *)
 Definition exA : arr ZS := @mkArr ZS 3 4 (fun i j => 1 + i * 4 + j).
 Example C20_nonvacuous :
@@ -374,3 +459,16 @@ Example C20_nonvacuous :
   qlt 0%Qc (get (@circle QS qle qsqrt 7 7 (Q2Qc (7 # 4)) 0%Qc 0%Qc true) 3 5) = true /\
   length (hex_ring 2) = 12%nat /\ length (hex_kept 2 [0; 5]) = 17%nat.
 Proof. vm_compute. repeat split; reflexivity. Qed.
+
+(* non-vacuity of the deepen statements: a spider arm on the rationals, a centroid that moves with pad, the size of a
+   one-ring aperture (sqrt 3 ~ 26/15, sqrt 2 ~ 7/5) *)
+Definition exQ : arr QS := @mkArr QS 2 3 (fun i j => zq (1 + i * 3 + j)).
+Example C20_nonvacuous_deepen :
+  get (@spider QS qle 9 9 1%Qc (Q2Qc (7 # 5)) 0%Qc 0%Qc 1%Qc 0%Qc false) 4 6 = 0%Qc /\
+  get (@spider QS qle 9 9 1%Qc (Q2Qc (7 # 5)) 0%Qc 0%Qc 1%Qc 0%Qc false) 2 6 = 1%Qc /\
+  @mesh_val QS 7 8 (zq 1) (zq (-2)) (Q2Qc (3 # 5)) (Q2Qc (4 # 5)) 4 2 = (0%Qc, 0%Qc) /\
+  asum exQ <> 0%Qc /\
+  (match pad2 exQ 5 4 with Ok b => centroid b = ((fst (centroid exQ) + zq 1)%Qc, (snd (centroid exQ) + zq 1)%Qc) | Err _ => False end) /\
+  hex_size 1 (zq 4) (zq 1) (Q2Qc (26 # 15)) 2 = 27 /\
+  sanitize_shape (ShScalar 5) = [5; 5] /\ @rebin2_entry QS true exQ 1 = Err ValueError.
+Proof. vm_compute. repeat split; try reflexivity; discriminate. Qed.
